@@ -29,6 +29,13 @@ package ethereum
 
 // redeemParses(data, abi): ParseRedeem accepts the transaction bytes under that ABI
 //@ ghost func ethRedeemParses(data string, abi string) bool
+// (*types.Transaction).To: a decoded transaction is immutable, so whether it has a recipient is a function of the
+// object (assumed); the returned pointer itself is a fresh copy each time.
+//@ ghost func ethTxHasTo(t int) bool
+//@ assume extern func github.com/ethereum/go-ethereum/core/types.(*Transaction).To
+//@   modifies nothing
+//@   ensures (result != nil) == ethTxHasTo(self)
+
 // go-ethereum's ABI parser and the map scan of getSignFromName do not touch verified state (assumed: external / pure)
 //@ assume extern func github.com/ethereum/go-ethereum/accounts/abi.JSON
 //@   modifies nothing
@@ -61,9 +68,12 @@ package ethereum
 //@   modifies nothing
 //@   ensures result0 != nil && fresh(result0)
 
-//@ assume func ParseErc20Lock
+// verified for crash-freedom (the nil To() of a contract-creation transaction is rejected since 4cb215b)
+//@ func ParseErc20Lock
+//@   safety C18
 //@   modifies nothing
-//@   ensures err == nil ==> result0 != nil && fresh(result0) && result0.TokenAmount != nil && fresh(result0.TokenAmount) && big(result0.TokenAmount) == erc20LockAmt(str(rawEthTx)) && big(result0.TokenAmount) >= 0
+//@   trusts err == nil ==> fresh(result0) && fresh(result0.TokenAmount) && big(result0.TokenAmount) == erc20LockAmt(str(rawEthTx)) && big(result0.TokenAmount) >= 0
+//@   ensures err == nil ==> result0 != nil && result0.TokenAmount != nil // C18.erc20-lock-result
 
 //@ func ParseERC20RedeemParams
 //@   safety C18
